@@ -16,13 +16,25 @@
 (*   Verdict      :927  error channel; foundBlock check; BlockCache.Put    *)
 (*                      (:943; same goroutine, nothing can intervene)      *)
 (*   Return             the caller sees the result                         *)
+(*                                                                         *)
+(* Target classes: blocks of Fut (a subset of Known) are blocks whose      *)
+(* STORED header carries a timestamp more than two hours ahead of the      *)
+(* node's adjusted time (the header store does not look at timestamps; the *)
+(* header was within the limit on the clock it was synced with).  The      *)
+(* handler's CheckBlockSanity (:868) runs the HEADER checks first          *)
+(* (btcd validate.go checkBlockHeaderSanity: ErrTimeTooNew) and only then  *)
+(* looks at the transactions, so for such a target EVERY response under    *)
+(* the requested header - the intact block included - is rejected and its  *)
+(* sender banned; the call can only fail.  That is the code as it is; the  *)
+(* Props say nothing about the intact response to such a target.           *)
 (***************************************************************************)
 EXTENDS Integers, Sequences, FiniteSets, TLC, Json, BlockQueryProps
 
 CONSTANTS NB,        \* blocks 1..NB are known to the header store
           NP,        \* peers 1..NP
           MaxCalls,  \* GetBlock calls per history
-          MaxResp    \* responses per call (0 = unbounded)
+          MaxResp,   \* responses per call (0 = unbounded)
+          Fut        \* known blocks whose stored header is dated > 2 h in the future
 
 VARIABLES cache, banned, pc, tgt, found, last, val, ret, ncalls, nresp, abs, act, viol
 
@@ -36,6 +48,7 @@ None    == [k |-> "none", b |-> 0]
 Obs == [ret    |-> ret,
         cache  |-> [i \in 1..NB |-> IF i \in cache THEN 1 ELSE 0],
         cx     |-> 0,
+        fut    |-> [i \in 1..NB |-> IF i \in Fut THEN 1 ELSE 0],
         banned |-> [p \in 1..NP |-> IF p \in banned THEN 1 ELSE 0]]
 
 A(op, k, b, p, res) == [op |-> op, tgt |-> tgt', k |-> k, b |-> b, p |-> p, res |-> res]
@@ -81,9 +94,13 @@ Resp(k, b, p) ==
        [] OTHER -> b = tgt
   /\ last' = e
   /\ UNCHANGED <<cache, pc, tgt, val, ret, ncalls>>
-  /\ CASE e.k = "intact" ->
+  /\ CASE e.k = "intact" /\ tgt \notin Fut ->
             /\ found' = TRUE /\ UNCHANGED banned
             /\ Finish(A("Resp", k, b, p, "fin"))
+       [] e.k = "intact" /\ tgt \in Fut ->
+            \* CheckBlockSanity fails on the header's timestamp: :879 BanPeer, noProgress
+            /\ banned' = banned \cup {p} /\ UNCHANGED found
+            /\ Finish(A("Resp", k, b, p, "none"))
        [] e.k \in Invalid ->
             /\ banned' = banned \cup {p} /\ UNCHANGED found
             /\ Finish(A("Resp", k, b, p, "none"))
@@ -123,7 +140,9 @@ Next ==
 
 Spec == Init /\ [][Next]_vars
 
-TypeOK == cache \subseteq Known /\ banned \subseteq Peers /\ ncalls \in 0..MaxCalls
+ASSUME Fut \subseteq Known
+
+TypeOK == cache \subseteq Known /\ cache \cap Fut = {} /\ banned \subseteq Peers /\ ncalls \in 0..MaxCalls
 NoViolation == viol = {}
 
 State == [cache |-> cache, banned |-> banned, pc |-> pc, tgt |-> tgt, found |-> found,
